@@ -408,17 +408,14 @@ Definition rt_ok_q (v : vty) (f : qfun) : bool :=
   | _ => false
   end.
 
+(* the wasm round trip is recognised literally: locals 1, 2 are the emitter's block / scratch registers, 3 the address,
+   4 the loaded value *)
 Definition rt_ok_w (v : vty) (f : wfun) : bool :=
+  cls_list_eqb (wlocals f) [W; W; W; vcls v] &&
   match wbody f with
-  | [WConst L size; WAlloc; WSet a; WGet a1; WGet 0; WStore sc sk; WGet a2; WLoad lc lk; WSet d; WGet d'; WReturn] =>
-      Nat.eqb a1 a && Nat.eqb a2 a && Nat.eqb d' d && negb (Nat.eqb a 0) && negb (Nat.eqb d 0) && negb (Nat.eqb a d)
-      && (vbytes v <=? size) && (size <? 2 ^ 16)
-      && stk_eqb sk (rt_st v) && cls_eqb sc (vcls v) && wst_ok sc sk
+  | [WConst L size; WAlloc; WSet 3; WGet 3; WGet 0; WStore sc sk; WGet 3; WLoad lc lk; WSet 4; WGet 4; WReturn] =>
+      (vbytes v <=? size) && stk_eqb sk (rt_st v) && cls_eqb sc (vcls v)
       && rt_ld_ok v lk && cls_eqb lc (vcls v) && wld_ok lc lk
-      && match nth_error (wparams f ++ wlocals f) a, nth_error (wparams f ++ wlocals f) d with
-         | Some W, Some cd => cls_eqb cd (vcls v)
-         | _, _ => false
-         end
   | _ => false
   end.
 
